@@ -20,11 +20,13 @@ use arrow_buffer::{NullBuffer, OffsetBuffer, ScalarBuffer};
 use arrow_schema::{DataType as ArrowType, Field, Schema};
 use bytes::Bytes;
 use parquet::arrow::ArrowWriter;
-use parquet::basic::{Encoding, Repetition, Type as PhysicalType};
+use parquet::basic::{BrotliLevel, Compression, Encoding, GzipLevel, Repetition, Type as PhysicalType, ZstdLevel};
 use parquet::column::reader::ColumnReader;
 use parquet::data_type::*;
 use parquet::encodings::decoding::{Decoder, DictDecoder, PlainDecoder, get_decoder};
 use parquet::encodings::encoding::{DictEncoder, Encoder, get_encoder};
+use parquet::compression::{CodecOptionsBuilder, create_codec};
+use parquet::encodings::levels::LevelEncoder;
 use parquet::encodings::rle::{RleDecoder, RleEncoder};
 use parquet::file::properties::{WriterProperties, WriterVersion};
 use parquet::file::reader::{FileReader, SerializedFileReader};
@@ -185,7 +187,32 @@ where
         }
         pos += c;
     }
-    Ok((hex(&bytes), ok && out == vals))
+    // history: skip / get interleaved, values_left bookkeeping, then the same decoder object reused
+    let mut ok2 = true;
+    let mut dec = get_decoder::<T>(d.clone(), encoding).map_err(|_| "ERR:dec".to_string())?;
+    for round in 0..2 {
+        dec.set_data(bytes.clone(), n).map_err(|_| "ERR:dec".to_string())?;
+        let mut pos = 0;
+        for (i, c) in chunks(n).into_iter().enumerate() {
+            if (i + round) % 2 == 0 {
+                let k = dec.skip(c).map_err(|_| "ERR:dec".to_string())?;
+                ok2 &= k == c;
+            } else {
+                let mut tmp = vec![T::T::default(); c];
+                let k = dec.get(&mut tmp).map_err(|_| "ERR:dec".to_string())?;
+                ok2 &= k == c && tmp[..] == vals[pos..pos + c];
+            }
+            pos += c;
+            if round == 1 && i == 2 {
+                break; // abandon the page half way, the next round must start clean
+            }
+        }
+        if round == 0 {
+            let mut one = vec![T::T::default(); 1];
+            ok2 &= dec.get(&mut one).map(|k| k == 0).unwrap_or(encoding == Encoding::DELTA_BINARY_PACKED && n == 0);
+        }
+    }
+    Ok((hex(&bytes), ok && ok2 && out == vals))
 }
 
 fn run_enc(enc: &str, ty: &str, vals: &str) -> (String, bool) {
@@ -558,6 +585,162 @@ fn run_levels(variant: usize, path: &str, rows: &str) -> String {
     format!("rep={} def={} vals={}", show_list(&reps), show_list(&defs), show_list(&vals))
 }
 
+// ------------------------------------------------------------------ BitWriter / BitReader scripts, LevelEncoder, codecs
+
+fn run_bw(script: &str) -> String {
+    let mut w = BitWriter::new(8);
+    for t in script.split(';') {
+        let (k, body) = t.split_at(1);
+        let f: Vec<&str> = body.split(':').collect();
+        match k {
+            "v" => w.put_value(f[1].parse().unwrap(), us(f[0])),
+            "a" => w.put_aligned::<u64>(f[1].parse().unwrap(), us(f[0])),
+            "s" => {
+                w.skip(us(f[0]));
+            }
+            "p" => {
+                let sl = w.get_next_byte_ptr(us(f[0]));
+                for (i, b) in sl.iter_mut().enumerate() {
+                    *b = (i + 1) as u8;
+                }
+            }
+            "w" => w.write_at(us(f[0]), f[1].parse::<u64>().unwrap() as u8),
+            "o" => w.put_aligned_offset::<u8>(f[1].parse::<u64>().unwrap() as u8, 1, us(f[0])),
+            "q" => w.put_vlq_int(f[0].parse().unwrap()),
+            "z" => w.put_zigzag_vlq_int(f[0].parse().unwrap()),
+            "f" => w.flush(),
+            _ => return "bad-op".into(),
+        }
+    }
+    let n = w.bytes_written();
+    format!("{} {}", hex(&w.consume()), n)
+}
+
+fn run_br(bytes: &[u8], script: &str) -> String {
+    let mut r = BitReader::new(Bytes::copy_from_slice(bytes));
+    let mut out: Vec<String> = vec![];
+    for (i, t) in script.split(';').enumerate() {
+        let (k, body) = t.split_at(1);
+        let f: Vec<&str> = body.split(':').collect();
+        let o = match k {
+            "v" => r.get_value::<u64>(us(f[0])).map(|v| v.to_string()).unwrap_or("none".into()),
+            "b" => {
+                let (n, w) = (us(f[0]), us(f[1]));
+                // the element type selects the unpack8/16/32/64 fast path
+                let vals: Vec<u64> = match (i + n) % 4 {
+                    0 if w <= 8 => {
+                        let mut b = vec![0u8; n];
+                        let k = r.get_batch::<u8>(&mut b, w);
+                        b[..k].iter().map(|x| *x as u64).collect()
+                    }
+                    1 if w <= 16 => {
+                        let mut b = vec![0u16; n];
+                        let k = r.get_batch::<u16>(&mut b, w);
+                        b[..k].iter().map(|x| *x as u64).collect()
+                    }
+                    2 if w <= 32 => {
+                        let mut b = vec![0i32; n];
+                        let k = r.get_batch::<i32>(&mut b, w);
+                        b[..k].iter().map(|x| *x as u32 as u64).collect()
+                    }
+                    3 if w == 1 => {
+                        let mut b = vec![false; n];
+                        let k = r.get_batch::<bool>(&mut b, w);
+                        b[..k].iter().map(|x| *x as u64).collect()
+                    }
+                    _ => {
+                        let mut b = vec![0u64; n];
+                        let k = r.get_batch::<u64>(&mut b, w);
+                        b[..k].to_vec()
+                    }
+                };
+                format!("[{}]", vals.iter().map(|x| x.to_string()).collect::<Vec<_>>().join(","))
+            }
+            "k" => r.skip(us(f[0]), us(f[1])).to_string(),
+            "a" => r.get_aligned::<u64>(us(f[0])).map(|v| v.to_string()).unwrap_or("none".into()),
+            "q" => r.get_vlq_int().map(|v| (v as u64).to_string()).unwrap_or("none".into()),
+            "z" => r.get_zigzag_vlq_int().map(|v| v.to_string()).unwrap_or("none".into()),
+            "o" => r.get_byte_offset().to_string(),
+            _ => return "bad-op".into(),
+        };
+        out.push(o);
+    }
+    out.join(";")
+}
+
+/// returns (answer, observer consistent)
+fn run_lvl(ver: &str, max_level: i16, script: &str) -> (String, bool) {
+    let mut e = if ver == "v1" { LevelEncoder::v1_streaming(max_level) } else { LevelEncoder::v2_streaming(max_level) };
+    let mut pages: Vec<String> = vec![];
+    let mut ok = true;
+    if script != "-" {
+        for t in script.split(';') {
+            let (k, body) = t.split_at(1);
+            match k {
+                "b" => {
+                    let levels: Vec<i16> = if body.is_empty() { vec![] } else { body.split('.').map(|x| x.parse().unwrap()).collect() };
+                    let mut seen: Vec<i16> = vec![];
+                    let n = e.put_with_observer(&levels, |v, c| seen.extend(std::iter::repeat_n(v, c)));
+                    ok &= n == levels.len() && seen == levels;
+                }
+                "n" => {
+                    let f: Vec<&str> = body.split(':').collect();
+                    let (v, c): (i16, usize) = (f[0].parse().unwrap(), f[1].parse().unwrap());
+                    let mut calls = vec![];
+                    e.put_n_with_observer(v, c, |v, c| calls.push((v, c)));
+                    ok &= calls == vec![(v, c)];
+                }
+                "F" => pages.push(e.flush_to(|b| hex(b))),
+                _ => return ("bad-op".into(), true),
+            }
+        }
+    }
+    pages.push(hex(&e.consume()));
+    (pages.join("/"), ok)
+}
+
+fn run_codec(name: &str, data: &[u8]) -> String {
+    let f: Vec<&str> = name.split(':').collect();
+    let lvl = |d: u32| f.get(1).and_then(|x| x.parse::<u32>().ok()).unwrap_or(d);
+    let (c, compat) = match f[0] {
+        "SNAPPY" => (Compression::SNAPPY, false),
+        "GZIP" => (Compression::GZIP(GzipLevel::try_new(lvl(6)).unwrap()), false),
+        "BROTLI" => (Compression::BROTLI(BrotliLevel::try_new(lvl(1)).unwrap()), false),
+        "ZSTD" => (Compression::ZSTD(ZstdLevel::try_new(lvl(1) as i32).unwrap()), false),
+        "LZ4" => (Compression::LZ4, false),
+        "LZ4C" => (Compression::LZ4, true),
+        "LZ4_RAW" => (Compression::LZ4_RAW, false),
+        _ => return "bad-op".into(),
+    };
+    let opts = CodecOptionsBuilder::default().set_backward_compatible_lz4(compat).build();
+    let mut codec = match create_codec(c, &opts) {
+        Ok(Some(c)) => c,
+        _ => return "ERR:codec".into(),
+    };
+    // compress appends: a non-empty output buffer keeps its prefix
+    let mut comp = vec![0xEEu8; 3];
+    if codec.compress(data, &mut comp).is_err() {
+        return "ERR:codec".into();
+    }
+    let hint = if data.len() % 2 == 0 { Some(data.len()) } else { None };
+    // the LZ4 block formats need the size
+    let hint = if f[0].starts_with("LZ4") { Some(data.len()) } else { hint };
+    let mut out = vec![0x11u8; 2];
+    match codec.decompress(&comp[3..], &mut out, hint) {
+        Ok(n) if n == data.len() && out.len() == 2 + n && comp[..3] == [0xEE; 3] && out[..2] == [0x11; 2] => {
+            // a second use of the same codec object
+            let mut comp2 = vec![];
+            let mut out2 = vec![];
+            if codec.compress(data, &mut comp2).is_err() || codec.decompress(&comp2, &mut out2, Some(data.len())).is_err() || out2 != data {
+                return "ERR:codec-reuse".into();
+            }
+            hex(&out[2..])
+        }
+        Ok(_) => "ERR:codec-len".into(),
+        Err(_) => "ERR:codec".into(),
+    }
+}
+
 // ------------------------------------------------------------------ dispatch
 
 /// returns (answer, oracle failure description if any)
@@ -744,6 +927,27 @@ fn run_case_full(line: &str) -> (String, Option<String>) {
         "levels" => {
             let (variant, path, rows) = (us(t[2]), t[3], t[4]);
             guarded(|| run_levels(variant, path, rows))
+        }
+        "bw" => guarded(|| run_bw(t[2])),
+        "br" => {
+            let b = unhex(t[2]);
+            guarded(|| run_br(&b, t[3]))
+        }
+        "lvl" => {
+            let mut ok = true;
+            let a = guarded(|| {
+                let (a, o) = run_lvl(t[2], t[3].parse().unwrap(), t[4]);
+                ok = o;
+                a
+            });
+            if !ok {
+                oracle = Some("LevelEncoder observer calls do not add up to the levels put".into());
+            }
+            a
+        }
+        "codec" => {
+            let b = unhex(t[3]);
+            guarded(|| run_codec(t[2], &b))
         }
         _ => "bad-op".into(),
     };
@@ -1020,7 +1224,206 @@ fn gen_path(rng: &mut Rng) -> String {
     p
 }
 
+fn gen_bw(rng: &mut Rng) -> (String, String) {
+    // the script is built against a real writer so that write_at offsets are in bounds
+    let mut w = BitWriter::new(8);
+    let mut ops: Vec<String> = vec![];
+    let n = 1 + rng.usize(40);
+    let fixed_w = if rng.chance(1, 2) { Some(*rng.pick(&[0usize, 1, 3, 7, 8, 9, 31, 32, 33, 63, 64])) } else { None };
+    for _ in 0..n {
+        match rng.below(12) {
+            0..=6 => {
+                let wd = fixed_w.unwrap_or_else(|| rng.usize(65));
+                let v = if rng.chance(1, 4) { mask(wd) } else { rng.next_u64() & mask(wd) };
+                w.put_value(v, wd);
+                ops.push(format!("v{}:{}", wd, v));
+            }
+            7 => {
+                let nb = rng.usize(10);
+                let v = rng.next_u64();
+                w.put_aligned::<u64>(v, nb);
+                ops.push(format!("a{}:{}", nb, v));
+            }
+            8 => {
+                let nb = rng.usize(4);
+                if rng.bool() {
+                    w.skip(nb);
+                    ops.push(format!("s{}", nb));
+                } else {
+                    w.get_next_byte_ptr(nb);
+                    ops.push(format!("p{}", nb));
+                }
+            }
+            9 if w.byte_offset() > 0 => {
+                let off = rng.usize(w.byte_offset());
+                let v = rng.below(256);
+                w.write_at(off, v as u8);
+                ops.push(format!("{}{}:{}", if rng.bool() { "w" } else { "o" }, off, v));
+            }
+            10 => {
+                let v = rng.next_u64() >> rng.below(64);
+                w.put_vlq_int(v);
+                ops.push(format!("q{}", v));
+            }
+            11 => {
+                let v = (rng.next_u64() as i64) >> rng.below(64);
+                w.put_zigzag_vlq_int(v);
+                ops.push(format!("z{}", v));
+            }
+            _ => {
+                w.flush();
+                ops.push("f".into());
+            }
+        }
+    }
+    (format!("C05 bw {}", ops.join(";")), "op:bw nt".into())
+}
+
+fn gen_br(rng: &mut Rng) -> (String, String) {
+    let nbytes = *rng.pick(&[0usize, 1, 7, 8, 9, 15, 16, 17, 40, 64, 65, 130, 300]);
+    let mut b = rng.bytes(nbytes);
+    // make varints terminate often
+    for x in b.iter_mut() {
+        if rng.chance(1, 2) {
+            *x &= 0x7f;
+        }
+    }
+    let mut ops: Vec<String> = vec![];
+    for _ in 0..1 + rng.usize(12) {
+        ops.push(match rng.below(12) {
+            0..=2 => format!("v{}", rng.usize(65)),
+            3..=6 => format!("b{}:{}", *rng.pick(&[0usize, 1, 7, 8, 9, 15, 16, 17, 31, 32, 33, 63, 64, 65, 100]), *rng.pick(&[0usize, 1, 2, 3, 7, 8, 9, 13, 16, 17, 31, 32, 33, 64])),
+            7 => format!("k{}:{}", rng.usize(70), rng.usize(65)),
+            8 => format!("a{}", rng.usize(9)),
+            9 => "q".into(),
+            10 => "z".into(),
+            _ => "o".into(),
+        });
+    }
+    (format!("C05 br {} {}", hex(&b), ops.join(";")), "op:br nt".into())
+}
+
+fn gen_lvl(rng: &mut Rng) -> (String, String) {
+    let ver = if rng.bool() { "v1" } else { "v2" };
+    let max_level = *rng.pick(&[0i64, 1, 1, 2, 3, 4, 7, 8, 255, 256]);
+    let mut ops: Vec<String> = vec![];
+    for _ in 0..rng.usize(8) {
+        match rng.below(6) {
+            0..=2 => {
+                let w = 64 - (max_level as u64).leading_zeros() as usize;
+                let n = gen_len(rng).min(200);
+                let vals: Vec<u64> = gen_rle_values(rng, w, n).into_iter().map(|v| v.min(max_level as u64)).collect();
+                ops.push(format!("b{}", vals.iter().map(|x| x.to_string()).collect::<Vec<_>>().join(".")));
+            }
+            3 | 4 => ops.push(format!("n{}:{}", rng.range(0, max_level), *rng.pick(&[0usize, 1, 7, 8, 9, 16, 17, 100, 600]))),
+            _ => ops.push("F".into()),
+        }
+    }
+    let s = if ops.is_empty() { "-".to_string() } else { ops.join(";") };
+    (format!("C05 lvl {} {} {}", ver, max_level, s), format!("op:lvl lvl:{} nt", ver))
+}
+
+fn gen_codec(rng: &mut Rng) -> (String, String) {
+    let name = match rng.below(8) {
+        0 => "SNAPPY".to_string(),
+        1 => format!("GZIP:{}", rng.below(10)),
+        2 => format!("BROTLI:{}", rng.below(6)),
+        3 => format!("ZSTD:{}", 1 + rng.below(12)),
+        4 => "LZ4".to_string(),
+        5 => "LZ4C".to_string(),
+        _ => "LZ4_RAW".to_string(),
+    };
+    let n = *rng.pick(&[0usize, 1, 2, 15, 16, 17, 255, 256, 1000, 4096, 4097]);
+    let data: Vec<u8> = match rng.below(3) {
+        0 => rng.bytes(n),
+        1 => vec![rng.below(256) as u8; n],
+        _ => (0..n).map(|i| (i % 7) as u8).collect(),
+    };
+    (format!("C05 codec {} {}", name, hex(&data)), format!("op:codec codec:{} nt", name.split(':').next().unwrap()))
+}
+
+/// the dense block: boundary cases generated in code, the same in every run
+fn dense_unit() -> Vec<(String, String)> {
+    let mut out: Vec<(String, String)> = vec![];
+    let sizes = [0usize, 1, 7, 8, 9, 15, 16, 17, 63, 64, 65, 503, 504, 505, 511, 512, 513];
+    // RLE: run / group boundaries for three widths and four shapes
+    for w in [1usize, 3, 8, 32] {
+        for n in sizes {
+            let m = mask(w);
+            let shapes: [Vec<u64>; 4] = [
+                vec![1 & m; n],
+                (0..n).map(|i| (i as u64) & m).collect(),
+                (0..n).map(|i| if i % 9 == 8 { 0 } else { 1 & m }).collect(), // 8 equal then a break
+                (0..n).map(|i| if i < n / 2 { (i as u64 * 7) & m } else { m }).collect(), // packed then a long run
+            ];
+            for v in shapes {
+                out.push((format!("C05 rle-enc {} {}", w, show_list(&v)), format!("op:rle-enc dense w:{} len:{} nt", wclass(w), lclass(n))));
+            }
+        }
+    }
+    // delta: block / mini block boundaries, wrap-around
+    for ty in ["i32", "i64"] {
+        let (lo, hi) = if ty == "i32" { (i32::MIN as i64, i32::MAX as i64) } else { (i64::MIN, i64::MAX) };
+        for n in [0usize, 1, 2, 32, 33, 64, 65, 128, 129, 130, 256, 257, 258, 513] {
+            let shapes: [Vec<i64>; 4] = [
+                vec![hi; n],
+                (0..n).map(|i| if i % 2 == 0 { lo } else { hi }).collect(),
+                (0..n).map(|i| (i as i64) * 3 - 5).collect(),
+                (0..n).map(|i| if i % 64 == 63 { hi } else { i as i64 }).collect(),
+            ];
+            for v in shapes {
+                out.push((format!("C05 enc delta {} {}", ty, show_list(&v)), format!("op:enc enc:delta dense ty:{} len:{} nt", ty, lclass(n))));
+            }
+        }
+    }
+    // booleans (RLE + PLAIN), plain/bss/dict ints at batch boundaries
+    for n in [0usize, 1, 7, 8, 9, 63, 64, 65, 511, 512, 513] {
+        let bits: Vec<bool> = (0..n).map(|i| i % 11 < 9).collect();
+        for e in ["plain", "rle"] {
+            out.push((format!("C05 enc {} bool {}", e, show_bits(&bits)), format!("op:enc enc:{} dense ty:bool len:{} nt", e, lclass(n))));
+        }
+        let v: Vec<i64> = (0..n).map(|i| (i % 5) as i64 - 2).collect();
+        for (e, ty) in [("plain", "i32"), ("bss", "i64"), ("dict", "i32"), ("dict", "f64"), ("bss", "f32")] {
+            out.push((format!("C05 enc {} {} {}", e, ty, show_list(&v)), format!("op:enc enc:{} dense ty:{} len:{} nt", e, ty, lclass(n))));
+        }
+    }
+    // bit reader: every element type around its unpack batch size, from an unaligned position
+    let data: Vec<u8> = (0..400).map(|i| (i * 37 + 11) as u8).collect();
+    for w in [1usize, 3, 8, 13, 16, 17, 32] {
+        for n in [7usize, 8, 9, 15, 16, 17, 31, 32, 33, 63, 64, 65] {
+            for lead in [0usize, 1, 5] {
+                let mut ops = vec![];
+                if lead > 0 {
+                    ops.push(format!("v{}", lead));
+                }
+                ops.push(format!("b{}:{}", n, w));
+                ops.push("o".into());
+                ops.push(format!("b{}:{}", n + 1, w));
+                out.push((format!("C05 br {} {}", hex(&data), ops.join(";")), "op:br dense nt".into()));
+            }
+        }
+    }
+    // levels: bulk-fill gate (64 elements, >= 50 % nulls) at a non-zero child offset, both sides of the gate
+    for big in [63usize, 64, 65, 100] {
+        for nulls_every in [2usize, 3] {
+            let elems = |n: usize, base: usize| (0..n).map(|i| if (i + base) % nulls_every == 0 { "n".to_string() } else { format!("!{}", (i + base) % 1000) }).collect::<Vec<_>>().join(",");
+            let rows = format!("[![{}],n,![{}],![],![{}]]", elems(5, 0), elems(big, 5), elems(3, 9));
+            for variant in [0usize, 2, 5, 8] {
+                out.push((format!("C05 levels {} oro {}", variant, rows), "op:levels dense depth:1 nested nt".into()));
+            }
+        }
+    }
+    out
+}
+
 fn gen_unit(rng: &mut Rng) -> (String, String) {
+    match rng.below(112) {
+        100..=102 => return gen_bw(rng),
+        103..=105 => return gen_br(rng),
+        106..=108 => return gen_lvl(rng),
+        109..=111 => return gen_codec(rng),
+        _ => {}
+    }
     match rng.below(100) {
         0..=3 => {
             let v = match rng.below(4) {
@@ -1263,6 +1666,16 @@ fn main() {
         }
     } else {
         let thorough = args.tier == "thorough";
+        let mut dense = dense_unit();
+        dense.extend(e2e::dense_e2e());
+        for (line, tags) in dense {
+            let (a, o) = run_case_full(&line);
+            if let Some(what) = o {
+                sink.oracle_failure(line.clone(), what, &tags);
+            }
+            let (a, tags) = post_e2e(&line, a, &tags);
+            sink.case(line, a, &tags);
+        }
         let mut rng = Rng::new(args.seed ^ 0xC05);
         let n_unit = n_cases(&args, 7000, 150000);
         for _ in 0..n_unit {
